@@ -33,6 +33,9 @@ def main(tier):
     nh = 2000 if tier == 'quick' else 50000
     hres = [histrun.run(cfg, 'asan', 'alloc', nh, 200) for cfg in ('shipped', 'kissel')]
     hres.append(histrun.run('shipped', 'plain', 'alloc', 200 if tier == 'quick' else 2000, 120, valgrind=True))
+    # (c) crystal-file workload: generated well-formed / corrupt / duplicate / truncated files through Crystal_ReadFile and the array API
+    hres.append(histrun.run('shipped', 'asan', 'crystal', 800 if tier == 'quick' else 20000, 120, builtin_runs=1))
+    hres.append(histrun.run('shipped', 'plain', 'crystal', 32 if tier == 'quick' else 400, 60, valgrind=True))
     for res in hres:
         for c in res['crashes']:
             if c['reports']:
@@ -44,6 +47,8 @@ def main(tier):
                              dict(history=c['history'], step=c['step'], op=c['op'], tail=c.get('tail')))
     hviol, hops, htot = histrun.merge(hres)
     for key, v in hviol.items():
+        if key.startswith('c14:') and 'leaves-memory' not in key:
+            continue          # shadow-model disagreements are C14's verdict
         ck.violation(key, v['what'], dict(history_prefix=v['witness'], count=v['count']))
     if htot['steps'] < 10000 or len(hops) < 8:
         raise common.Inconclusive('allocation histories observed too little: %r' % (htot,))
